@@ -224,7 +224,9 @@ func (c *MapCodec) readMapEntry(mp, k unsafe.Pointer, data []byte) (int, error) 
 	// the value should be. We're going to unmarshal into this directly
 	val := mapassign(unpackEFace(c.rtype).data, mp, k)
 
-	if offset < len(data) {
+	// If the first field was not the key then it is the value, even if the
+	// value's encoding is empty (e.g. a pointer to an empty string)
+	if index != 1 || offset < len(data) {
 		if index == 1 {
 			offset, fieldEnd, _, wt, err = c.readTagAndLength(data, offset)
 			if err != nil {
